@@ -211,6 +211,7 @@ type Run struct {
 	stop    bool
 	res     *Result
 	t0      time.Time
+	hangs   int
 }
 
 func (r *Run) push(p []int32) {
@@ -451,7 +452,29 @@ func (r *Run) runPath(w *worker, prefix []int32) {
 			w.sol.send("(pop 1)\n")
 		}
 	case "unwind":
-		pc.markInconclusive("unwinding bound: " + pc.statusMsg)
+		if pc.hangCheck {
+			// candidate non-termination: confirmed (or not) by the native replay under a watchdog
+			w.sol.send("(push 1)\n")
+			pc.assertChecks++
+			res := w.sol.checkSat()
+			if res == "sat" {
+				pc.violation("hang", "hang", pc.panicSite, "bound reached: "+pc.statusMsg, true, "")
+				r.mu.Lock()
+				r.hangs++
+				if r.hangs >= 3 && !r.stop {
+					// enough candidates: stop exploring (non-terminating code makes the path tree infinite)
+					r.stop = true
+					r.res.Inconclusive["exploration stopped after 3 candidate hangs"]++
+					r.cond.Broadcast()
+				}
+				r.mu.Unlock()
+			} else if res != "unsat" {
+				pc.markInconclusive("solver " + res + " at hang model query")
+			}
+			w.sol.send("(pop 1)\n")
+		} else {
+			pc.markInconclusive("unwinding bound: " + pc.statusMsg)
+		}
 	case "inconclusive":
 		msg := pc.statusMsg
 		if k := strings.Index(msg, "\n"); k > 0 && !r.opts.Trace && r.opts.Decisions == nil {
